@@ -92,6 +92,7 @@ def docTriggersFrom : Scan → List HTok → List String
       | .startTag n attrs =>
         (match trigStartDrop sc.prev n rest with | some x => if attrs.isEmpty then [x] else [] | none => []) ++
         (if isOneOf n ["pre"] && commentThenNewline false rest then ["prekept"] else []) ++
+        (if isOneOf n ["template", "noscript"] then ["hiddenws"] else []) ++
         (if (n = "style".toList && attrs.any (fun a => a.name = "amp-boilerplate".toList)) ||
             isOneOf n ["xmp", "listing", "plaintext", "noembed", "noframes"] then ["rawstyle"] else []) ++
         (if attrs.any (fun a => crLfRef a.val) then ["crlf"] else []) ++
